@@ -70,14 +70,18 @@ def gen(rng, tier, index):
         faults = [{'stage': 'u0', 'pos': p_, 'exc': rng.choice(kinds)}
                   for p_ in range(n) if rng.random() < 0.3]
     # key iteration over a parallel map sends (key, example) pairs to the workers
-    items = desc['source']['kind'] == 'dict' and par['op'] == 'parmap' and \
-        stages[-1] is par and rng.random() < 0.5
+    items = desc['source']['kind'] == 'dict' and stages[-1] is par and not par.get('catch') and \
+        (par['op'] == 'parmap' or not pargen.is_pool(par)) and rng.random() < 0.5
     cases = []
     for j in range(4):
         sched = dict(rng.choice(POLICIES), seed=rng.randrange(1 << 30))
         cases.append({
             'desc': desc, 'sched': sched, 'epochs': rng.choice([1, 2, 2] if faults else [1, 1, 2]),
             'faults': faults, 'items': bool(items),
+            # the bound also holds while (and after) the consumer stops early
+            **({'stop': {'kind': rng.choice(['close', 'close', 'exc', 'drop']),
+                         'k': rng.randrange(0, n), 'delay': rng.randrange(0, 4)}}
+               if rng.random() < 0.3 else {}),
             'cost_seed': rng.randrange(1000), 'think_seed': rng.randrange(1000),
             'think_max': rng.choice([0, 5, 40]),
             'trace': ['parallel_utils', 'core'] if rng.random() < 0.2
